@@ -180,6 +180,35 @@ def run(ctx, which="C02"):
                 ctx.violation("point_interval_range",
                               f"point_interval(nx_left={nxl}, nx_right={nxr}, disp={D}/{s}) = {pq}: {bad}", case)
 
+    # ---------------- the reported maximal cost: the real SadSsd.compute_cost_volume on image pairs whose values are
+    # multiples of 1/u (u = 1, 2, 4; exact in float32) against the generated sad_cmax / ssd_cmax at the unit 1/u
+    jobs, impl = [], []
+    for k in range(18 if quick else 180):
+        meth, u, w = ("sad", "ssd")[k % 2], (1, 2, 4)[(k // 2) % 3], (1, 3, 5)[(k // 6) % 3]
+        rows, cols = rng.randint(w, w + 3), rng.randint(w + 1, w + 5)
+        amp = 60 if meth == "ssd" else 1000
+        li = np.array([[rng.randint(0, amp * u) for _ in range(cols)] for _ in range(rows)])
+        ri = np.array([[rng.randint(0, amp * u) for _ in range(cols)] for _ in range(rows)])
+        lds = pu.image_dataset((li / float(u)).astype(np.float32), disp=(-1, 1))
+        rds = pu.image_dataset((ri / float(u)).astype(np.float32), disp=None)
+        mcq = mcpkg.AbstractMatchingCost(matching_cost_method=meth, window_size=w, subpix=1)
+        cvq = mcq.allocate_cost_volume(lds, (lds["disparity"].sel(band_disp="min").data, lds["disparity"].sel(band_disp="max").data),
+                                       {"pipeline": {"matching_cost": {"matching_cost_method": meth, "window_size": w, "subpix": 1}}})
+        cvq = mcq.compute_cost_volume(lds, rds, cvq)
+        jobs.append((8, [0 if meth == "sad" else 1, u, int(li.max()), int(li.min()), int(ri.max()), int(ri.min()), w]))
+        impl.append(({"kind": "statements", "function": "cmax", "method": meth, "unit": f"1/{u}", "window": w,
+                      "left": (li / float(u)).tolist(), "right": (ri / float(u)).tolist()}, int(cvq.attrs["cmax"]),
+                     float(np.nanmax(cvq["cost_volume"].data)) if np.isfinite(cvq["cost_volume"].data).any() else None))
+    for (case, got, largest), m in zip(impl, model.batch(jobs)):
+        ctx.count("gen_cmax_calls")
+        ctx.traces += 1
+        ctx.case(("gen_cmax", case["method"], case["unit"], case["window"], str(case["left"])))
+        if got != m:
+            ctx.mismatch("gen_cmax", case, got, m)
+        if largest is not None and largest >= got + 1:
+            ctx.violation("cmax_below_a_cost", f"{case['method']} window {case['window']} on images in multiples of "
+                          f"{case['unit']}: reported cmax {got}, a cost of the volume is {largest}", case)
+
     # ---------------- function level: get_min_max_from_grid on random integer grids
     jobs, impl = [], []
     for _ in range(40 if quick else 400):
